@@ -26,7 +26,14 @@ func c22bases(t *testing.T) map[string]string {
 			t.Logf("skipping %s: %v", f, err)
 			continue
 		}
-		out[filepath.Base(f)] = string(b)
+		text := string(b)
+		if strings.HasSuffix(f, ".tmerr") {
+			// the expectation markers of the repository's error tests are not part of the grammar: with
+			// them every such file ends in the parser with a syntax error and the semantic phases
+			// (options, lexer rules, flex mode, sets, ...) are never reached
+			text = strings.NewReplacer("«", "", "»", "").Replace(text)
+		}
+		out[filepath.Base(f)] = text
 	}
 	out["templ.tm"] = c22templ
 	out["expr.tm"] = c22expr
@@ -217,7 +224,18 @@ func TestVerifC22(t *testing.T) {
 				break
 			}
 			pos := r.Intn(len(text))
-			switch r.Intn(9) {
+			switch r.Intn(10) {
+			case 9:
+				// the body of the next lexer pattern (": /.../") replaced by a degenerate one: empty
+				// constants, empty classes, dangling operators (seeded change C22-r14m2: flex mode
+				// indexed the first byte of an empty constant)
+				if at := strings.Index(text[pos:], ": /"); at >= 0 {
+					from := pos + at + 3
+					if end := strings.IndexAny(text[from:], "/\n"); end >= 0 && text[from+end] == '/' {
+						odd := []string{"()", "a{0}", "(())", "(|)", "[]", "a|", "\\", "(?i)", "x{", "{eoi}", "a{0,0}", "[^\\x00-\\U0010ffff]"}
+						text = text[:from] + odd[r.Intn(len(odd))] + text[from+end:]
+					}
+				}
 			case 0:
 				text = text[:pos] + text[pos+1:]
 			case 1:
